@@ -59,7 +59,20 @@ def search(pid, routine, failure, rep):
         hits += hh
     import units
     known_cases = units.PROPS.get(pid, {}).get("known_cases", [])
-    hits = [h for h in hits if h.get("case") not in known_cases]
+    # a known case is either a whole case name or "case|<text that the observation starts with>" (one specific input)
+    def is_known(h):
+        for k in known_cases:
+            if "|" in k:
+                c, pre = k.split("|", 1)
+                if h.get("case") == c and h.get("observed", "").startswith(pre):
+                    return True
+            elif h.get("case") == k:
+                return True
+        return False
+    hits = [h for h in hits if not is_known(h)]
+    prefixes = units.PROPS.get(pid, {}).get("case_prefixes")
+    if prefixes:
+        hits = [h for h in hits if any(h.get("case", "").startswith(p) for p in prefixes)]
     if hits:
         h = hits[0]
         h["replay_args"] = ["replay", h["routine"], h["case"], h["input"]]
